@@ -8,6 +8,8 @@ pub mod c06;
 pub mod c07;
 pub mod c09;
 pub mod c11;
+pub mod c12;
+pub mod c16;
 pub mod c14;
 pub mod c18;
 
